@@ -300,11 +300,36 @@ def remove (s : State) (n : Name) : State :=
       awgs := s.awgs.mapIdx fun a g => if a ∈ r.awgs then { g with progs := adel n g.progs, armed := none } else g,
       dacs := s.dacs.mapIdx fun d g => if d ∈ r.dacs then { g with progs := adel n g.progs } else g }
 
-def clear (s : State) : State :=
+/-- registered program names whose record lists generator `a` -/
+def recordedOnAwg (s : State) (a : AwgId) (n : Name) : Bool :=
+  match aget n s.registered with
+  | some r => decide (a ∈ r.awgs)
+  | none => false
+
+def recordedOnDac (s : State) (d : DacId) (n : Name) : Bool :=
+  match aget n s.registered with
+  | some r => decide (d ∈ r.dacs)
+  | none => false
+
+/-- `clear_programs`.  `fix = true` is the behaviour with `fixes/PF-C18a.diff`: devices that dropped out of the
+wiring after a registration are not reached by clearing the *known* devices, so every registered program is
+first removed from the recorded devices that are no longer known (disarm + remove / delete_program).
+`fix = false`: the unrepaired code leaves such devices alone. -/
+def clearWith (fix : Bool) (s : State) : State :=
   { s with
     registered := [],
-    awgs := s.awgs.mapIdx fun a g => if knownAwg s a then { g with progs := [] } else g,
-    dacs := s.dacs.mapIdx fun d g => if knownDac s d then { progs := [], armed := none } else g }
+    awgs := s.awgs.mapIdx fun a g =>
+      if knownAwg s a then { g with progs := [] }
+      else if fix then
+        { g with progs := g.progs.filter (fun kv => !recordedOnAwg s a kv.1),
+                 armed := if s.registered.any (fun nr => decide (a ∈ nr.2.awgs)) then none else g.armed }
+      else g,
+    dacs := s.dacs.mapIdx fun d g =>
+      if knownDac s d then { progs := [], armed := none }
+      else if fix then { g with progs := g.progs.filter (fun kv => !recordedOnDac s d kv.1) }
+      else g }
+
+def clear (s : State) : State := clearWith true s
 
 def arm (s : State) (n : Name) : Except Err State :=
   match aget n s.registered with
@@ -323,7 +348,7 @@ def stepWith (fix : Bool) (s : State) : Op → Except Err State
   | .rmChannel id => rmChannel s id
   | .register n p cbOk update override => register fix s n p cbOk update override
   | .remove n => .ok (remove s n)
-  | .clear => .ok (clear s)
+  | .clear => .ok (clearWith fix s)
   | .arm n => arm s n
   | .run n => arm s n
 
@@ -474,6 +499,28 @@ def judge (s : State) : String :=
   else if !awgHoldsB s then "awg-misses-program"
   else if !dacHeldB s then "dac-holds-unregistered-or-unrelated-or-wrong-windows"
   else if !dacHoldsB s then "dac-misses-program"
+  else "ok"
+
+/-! ### the record invariant (independent of the wiring, hence also of re-wiring) -/
+
+/-- whatever a device holds is a registered program whose record lists that device.  Needs no assumption on
+the wiring: it survives `set_channel` / `set_measurement` / `rm_channel` on names in use, and it is what makes
+`remove_program` and `clear_programs` reach every holder. -/
+structure RecInv (s : State) : Prop where
+  awgRec : ∀ (a : AwgId) (g : Awg), s.awgs[a]? = some g → ∀ n u, aget n g.progs = some u →
+              ∃ r, aget n s.registered = some r ∧ a ∈ r.awgs
+  dacRec : ∀ (d : DacId) (g : Dac), s.dacs[d]? = some g → ∀ n w, aget n g.progs = some w →
+              ∃ r, aget n s.registered = some r ∧ d ∈ r.dacs
+
+def awgRecB (s : State) : Bool := allIdx s.awgs fun a g => allGet g.progs fun n _ =>
+  decide (∃ r, aget n s.registered = some r ∧ a ∈ r.awgs)
+def dacRecB (s : State) : Bool := allIdx s.dacs fun d g => allGet g.progs fun n _ =>
+  decide (∃ r, aget n s.registered = some r ∧ d ∈ r.dacs)
+def recInvB (s : State) : Bool := awgRecB s && dacRecB s
+
+def judgeRec (s : State) : String :=
+  if !awgRecB s then "awg-holds-program-outside-its-record"
+  else if !dacRecB s then "dac-holds-program-outside-its-record"
   else "ok"
 
 /-! ### arming, removal, clearing -/
@@ -677,6 +724,10 @@ def handle : List Sexp → Sexp
   | [.atom "judge", st] =>
     match state? st with
     | some s => .list [.atom "judge", .atom (judge s)]
+    | none => Sexp.err "bad-state"
+  | [.atom "judge-rec", st] =>
+    match state? st with
+    | some s => .list [.atom "judge", .atom (judgeRec s)]
     | none => Sexp.err "bad-state"
   | [.atom "judge-arm", st, n, st'] =>
     match state? st, nat? n, state? st' with
